@@ -169,7 +169,9 @@ class Node(object):
             ind.destination = False
             node_blocked_to.blocked_queue.remove((self.id_number, ind.id_number))
             node_blocked_to.len_blocked_queue -= 1
+            self.simulation.statetracker.change_state_release(self, node_blocked_to, ind, True)
             ind.is_blocked = False
+            self.simulation.statetracker.change_state_accept(self, ind)
         self.attach_server(srvr, ind)
         self.give_service_time_after_preemption(ind)
         ind.service_start_date = self.now
